@@ -39,9 +39,12 @@ Definition op_cache_run : opfun := fun zs _ =>
   | None => Err 2 end.
 
 (* ---------------- loss machines: D = W = Z (names of datasets / weight lists), val d w = (d, w)
-   zs = kind (0 generic, 1 fast, 2 relative entropy) :: w0 :: ops as triples (opc, a, b)
-     opc 0: Configure dataset a with mode b (0 identity, 1 inverse_sample, 2 inverse_unbiased, 3 unhandled,
-            >= 10: custom weights named b-10);  opc 1: SetW a (-1 = None)
+   zs = kind :: flags :: w0 :: ops as triples (opc, a, b)
+     kind 0 generic / 1 fast squared error, flags = fx_id + 2 fx_alias + 4 fx_ext (7 = repaired = the model of
+       the code, 0 = as coded before the fixes c12-se-...);  kind 2 relative entropy as coded before the fixes
+       c12-re-..., kind 3 relative entropy repaired
+     opc 0: Configure dataset a with mode b (0 identity, 1 inverse_sample, 2 inverse_unbiased,
+            3 "unbiased_inverse_covariance", >= 10: custom weights named b-10);  opc 1: SetW a (-1 = None)
    inverse-covariance weights of dataset d are named 1000 + 2 d + (1 if unbiased)
    reply per op: dataset in effect, weights in effect for value()/gradient() (-1 none), observable weights *)
 Definition zinvw (b : bool) (d : Z) : Z := (1000 + 2 * d + (if b then 1 else 0))%Z.
@@ -52,44 +55,34 @@ Definition dec_mode (b : Z) : @wmode Z :=
   if (b =? 0)%Z then Identity else if (b =? 1)%Z then InvSample else if (b =? 2)%Z then InvUnbiased
   else if (b =? 3)%Z then Unhandled else Custom (b - 10)%Z.
 Definition dec_lop (opc a b : Z) : @lop Z Z := if (opc =? 0)%Z then Configure a (dec_mode b) else SetW (oz a).
+Definition dec_fixes (z : Z) : fixes :=
+  {| fx_id := Z.odd z; fx_alias := Z.odd (z / 2); fx_ext := Z.odd (z / 4) |}.
 Definition out_val (v : option (Z * option Z)) (obs : option Z) : list Qc :=
   match v with Some (d, w) => [qz d; qz (zo w); qz (zo obs)] | None => [qz (-1); qz (-1); qz (zo obs)] end.
-Fixpoint loss_trace_g (s : @gstate Z Z) (l : list Z) : list Qc :=
-  match l with opc :: a :: b :: t => let s' := g_step zinvw s (dec_lop opc a b) in
-      out_val (g_value zval s') (g_w s') ++ loss_trace_g s' t | _ => [] end.
-Fixpoint loss_trace_f (s : @fstate Z Z) (l : list Z) : list Qc :=
-  match l with opc :: a :: b :: t => let s' := f_step zinvw s (dec_lop opc a b) in
-      out_val (f_value zval s') (f_w s') ++ loss_trace_f s' t | _ => [] end.
+Fixpoint loss_trace_g (p : fixes) (s : @gstate Z Z) (l : list Z) : list Qc :=
+  match l with opc :: a :: b :: t => let s' := g_step_p zinvw p s (dec_lop opc a b) in
+      out_val (g_value zval s') (g_w s') ++ loss_trace_g p s' t | _ => [] end.
+Fixpoint loss_trace_f (p : fixes) (s : @fstate Z Z) (l : list Z) : list Qc :=
+  match l with opc :: a :: b :: t => let s' := f_step_p zinvw p s (dec_lop opc a b) in
+      out_val (f_value zval s') (f_w s') ++ loss_trace_f p s' t | _ => [] end.
 Fixpoint loss_trace_r (s : @rstate Z Z) (l : list Z) : list Qc :=
   match l with opc :: a :: b :: t => let s' := r_step s (dec_lop opc a b) in
       out_val (r_value zval s') (r_w s') ++ loss_trace_r s' t | _ => [] end.
-Fixpoint loss_trace_gx (s : @gstate Z Z) (l : list Z) : list Qc :=
-  match l with opc :: a :: b :: t => let s' := g_step_fixed zinvw s (dec_lop opc a b) in
-      out_val (g_value zval s') (g_w s') ++ loss_trace_gx s' t | _ => [] end.
-Fixpoint loss_trace_fx (s : @fstate Z Z) (l : list Z) : list Qc :=
-  match l with opc :: a :: b :: t => let s' := f_step_fixed zinvw s (dec_lop opc a b) in
-      out_val (f_value zval s') (f_w s') ++ loss_trace_fx s' t | _ => [] end.
-Fixpoint loss_trace_fe (s : @fstate Z Z) (l : list Z) : list Qc :=
-  match l with opc :: a :: b :: t => let s' := f_step_extfix zinvw s (dec_lop opc a b) in
-      out_val (f_value zval s') (f_w s') ++ loss_trace_fe s' t | _ => [] end.
-Fixpoint loss_trace_fw (s : @fstate Z Z) (l : list Z) : list Qc :=
-  match l with opc :: a :: b :: t => let s' := f_step_wfix zinvw s (dec_lop opc a b) in
-      out_val (f_value zval s') (f_w s') ++ loss_trace_fw s' t | _ => [] end.
-(* kinds 10 / 11: the machines after the proposed fixes; 12 / 13: fast loss with only one of the two fixes *)
+Fixpoint loss_trace_rx (s : @rstate Z Z) (l : list Z) : list Qc :=
+  match l with opc :: a :: b :: t => let s' := r_step_fixed s (dec_lop opc a b) in
+      out_val (r_value zval s') (r_w s') ++ loss_trace_rx s' t | _ => [] end.
 Definition op_loss_machine : opfun := fun zs _ =>
   match zs with
-  | kind :: w0 :: ops =>
-      if (kind =? 0)%Z then Ok (loss_trace_g (g_init (oz w0)) ops)
-      else if (kind =? 1)%Z then Ok (loss_trace_f (f_init (oz w0)) ops)
+  | kind :: fl :: w0 :: ops =>
+      if (kind =? 0)%Z then Ok (loss_trace_g (dec_fixes fl) (g_init (oz w0)) ops)
+      else if (kind =? 1)%Z then Ok (loss_trace_f (dec_fixes fl) (f_init (oz w0)) ops)
       else if (kind =? 2)%Z then Ok (loss_trace_r (r_init (oz w0)) ops)
-      else if (kind =? 10)%Z then Ok (loss_trace_gx (g_init (oz w0)) ops)
-      else if (kind =? 11)%Z then Ok (loss_trace_fx (f_init (oz w0)) ops)
-      else if (kind =? 12)%Z then Ok (loss_trace_fe (f_init (oz w0)) ops)
-      else if (kind =? 13)%Z then Ok (loss_trace_fw (f_init (oz w0)) ops) else Err 3
+      else if (kind =? 3)%Z then Ok (loss_trace_rx (r_init (oz w0)) ops) else Err 3
   | _ => Err (-1) end.
 
 (* ---------------- algorithm machine: Q = O = P = Z, mkproj q o = 1000 q + o
-   zs = fixed :: p0 (-1 = no user projection) :: pairs (qt, option); reply per configure: projection, qt *)
+   zs = fixed (1 = as repaired by pgd-cached-func-proj = the model of the code, 0 = as coded before) ::
+        p0 (-1 = no projection handed to the constructor) :: pairs (qt, option); reply per configure: projection, qt *)
 Definition zmkproj (q o : Z) : Z := (1000 * q + o)%Z.
 Fixpoint algo_trace (s : @astate Z Z Z) (l : list Z) : list Qc :=
   match l with q :: o :: t => let s' := a_step zmkproj s (q, o) in
@@ -135,7 +128,8 @@ Definition op_invw : opfun := fun zs qs =>
   | _, _ => Err (-1) end.
 
 (* ---------------- heap model of MProcess.calc_proj_eq_constraint_with_var
-   zs = d2 :: on_para :: fixed ; qs = var (buffer 0 of the heap)
+   zs = d2 :: on_para :: fixed (1 = as repaired by mprocess-proj-eq-var-mutates-argument = the model of the code,
+   0 = as coded before) ; qs = var (buffer 0 of the heap)
    reply: result buffer id :: result length :: result values ++ contents of buffer 0 afterwards *)
 Definition heap0 (l : list Qc) : heap Qc_OF * arr :=
   (Build_heap Qc_OF 1 (fun _ => Build_buffer Qc_OF (length l) (fun i => nth i l 0%Qc)),
